@@ -174,8 +174,11 @@ Record response := { r_id : nat; r_status : Z; r_body : body }.
 (* what happens up to and including c.client.Do(req_) *)
 Inductive stage := StJoinPath | StMarshal | StNewRequest | StDo.
 Inductive outcome :=
-| OFail (st : stage) (x : X)       (* that call returned a non-nil error x *)
-| OResp (r : response).            (* Do returned (r, nil) *)
+| OFail (st : stage) (x : X)       (* that call returned (nothing, x) with x a non-nil error *)
+| OResp (r : response)             (* Do returned (r, nil) *)
+| OBoth (r : response) (x : X).    (* Do returned BOTH a response and an error: net/http does so exactly
+                                      when following redirects fails (CheckRedirect; by default after
+                                      10 redirects) -- r is the last 3xx response received *)
 
 (* what json's Decode did to the zero-valued r_: the value r_ holds afterwards
    and the returned error *)
@@ -323,6 +326,13 @@ Fixpoint exec (o : outcome) (p : list stmt) (s : mstate) : option (list slot * l
           else match st with StDo => None | _ => exec o p' s end
       | OResp r =>
           match st with StDo => exec o p' (set_resp s r) | _ => exec o p' s end
+      | OBoth r x =>
+          (* resp_, err := c.client.Do(req_); if err != nil { return <ret> }: resp_ is set but
+             <ret> = {{$errret}} does not mention it *)
+          match st with
+          | StDo => do_return (set_err (set_resp s r) (Some (EForeign x))) ret
+          | _ => exec o p' s
+          end
       end
   | GDeferClose :: p' => exec o p' (set_defer s)
   | GStatusSwitch :: p' =>
@@ -387,6 +397,7 @@ Arguments r_status {X} _.
 Arguments r_body {X} _.
 Arguments OFail {X} st x.
 Arguments OResp {X} r.
+Arguments OBoth {X} r x.
 Arguments DEof {X}.
 Arguments DOther {X} x.
 Arguments SNil {V X}.
